@@ -5,10 +5,12 @@ from typing import (
     TYPE_CHECKING,
     Any,
     Dict,
+    FrozenSet,
     Iterable,
     List,
     Optional,
     Protocol,
+    Set,
     Tuple,
     Union,
     cast,
@@ -113,24 +115,42 @@ def resolve1(x: object, default: object = None) -> Any:
     If this is an array or dictionary, it may still contains
     some indirect objects inside.
     """
+    seen: Set[int] = set()
     while isinstance(x, PDFObjRef):
+        if x.objid in seen:
+            # a chain of references that leads back to itself has no value
+            if settings.STRICT:
+                raise PDFValueError("Circular reference: %r" % x)
+            return default
+        seen.add(x.objid)
         x = x.resolve(default=default)
     return x
 
 
-def resolve_all(x: object, default: object = None) -> Any:
+def resolve_all(
+    x: object,
+    default: object = None,
+    _chain: FrozenSet[int] = frozenset(),
+) -> Any:
     """Recursively resolves the given object and all the internals.
 
     Make sure there is no indirect reference within the nested object.
     This procedure might be slow.
     """
+    # _chain: the objects whose resolution is in progress; a reference back
+    # into it is a cycle and resolves to the default.
     while isinstance(x, PDFObjRef):
+        if x.objid in _chain:
+            if settings.STRICT:
+                raise PDFValueError("Circular reference: %r" % x)
+            return default
+        _chain = _chain | {x.objid}
         x = x.resolve(default=default)
     if isinstance(x, list):
-        x = [resolve_all(v, default=default) for v in x]
+        x = [resolve_all(v, default=default, _chain=_chain) for v in x]
     elif isinstance(x, dict):
         for k, v in x.items():
-            x[k] = resolve_all(v, default=default)
+            x[k] = resolve_all(v, default=default, _chain=_chain)
     return x
 
 
